@@ -120,6 +120,9 @@ pub struct UnwindContext<'a> {
     fde: FrameDescriptionEntry<EndianArcSlice, usize>,
     debugee: &'a Debugee,
     cfa: RelocatedAddress,
+    /// True if the rule of the return address column is `undefined`: this frame has no caller,
+    /// the virtual unwind of stack activations is complete.
+    outermost: bool,
 }
 
 impl<'a> UnwindContext<'a> {
@@ -170,6 +173,10 @@ impl<'a> UnwindContext<'a> {
             Err(e) => return Err(e.into()),
         };
         let cfa = dwarf.evaluate_cfa(debugee, &registers_snap, row, ecx)?;
+        let outermost = matches!(
+            row.register(fde.cie().return_address_register()),
+            Some(RegisterRule::Undefined)
+        );
 
         let mut lazy_evaluator = None;
         let evaluator_init_fn = || -> Result<ExpressionEvaluator, Error> {
@@ -239,6 +246,7 @@ impl<'a> UnwindContext<'a> {
             debugee,
             fde,
             cfa,
+            outermost,
         }))
     }
 
@@ -255,6 +263,10 @@ impl<'a> UnwindContext<'a> {
     }
 
     fn return_address(&self) -> Option<RelocatedAddress> {
+        if self.outermost {
+            return None;
+        }
+
         let register = self.fde.cie().return_address_register();
         self.registers
             .value(register)
@@ -310,11 +322,13 @@ impl<'a> DwarfUnwinder<'a> {
         )?;
 
         let mut bt = vec![FrameSpan::new(self.debugee, ecx.location())?];
-        let mut visited_ips = HashSet::new();
-        visited_ips.insert(frame_0_location.pc);
         let Some(mut ucx) = mb_ucx else {
             return Ok(bt);
         };
+        // a frame is identified by its instruction pointer and CFA,
+        // a recursion repeats the former but never both
+        let mut visited_frames = HashSet::new();
+        visited_frames.insert((frame_0_location.pc, ucx.cfa));
 
         // start unwind
         while let Some(return_addr) = ucx.return_address() {
@@ -323,10 +337,6 @@ impl<'a> DwarfUnwinder<'a> {
                     target: "debugger",
                     "unwind depth limit {MAX_UNWIND_DEPTH} reached, stopping at {return_addr}"
                 );
-                break;
-            }
-
-            if !visited_ips.insert(return_addr) {
                 break;
             }
 
@@ -341,6 +351,10 @@ impl<'a> DwarfUnwinder<'a> {
                 None => break,
                 Some(ucx) => ucx,
             };
+
+            if !visited_frames.insert((return_addr, ucx.cfa)) {
+                break;
+            }
 
             let span = FrameSpan::new(self.debugee, next_location)?;
             bt.push(span);
